@@ -70,12 +70,12 @@ func checkC20(c *Ctx) {
 	defer func() { world.UseOpLog = false }()
 	type job struct {
 		n, t  int
-		shape string // plain | adapted014 | interleaved | later-proposal
+		shape string // plain | adapted014 | interleaved | later-proposal | second-ceremony
 		rep   int
 	}
 	var jobs []job
 	for _, nt := range ntCases(c.Pick(3, 4)) {
-		for _, sh := range []string{"plain", "adapted014", "interleaved", "later-proposal"} {
+		for _, sh := range []string{"plain", "adapted014", "interleaved", "later-proposal", "second-ceremony"} {
 			for r := 0; r < c.Pick(3, 20); r++ {
 				jobs = append(jobs, job{nt.N, nt.T, sh, r})
 			}
@@ -118,6 +118,18 @@ func runC20(c *Ctx, n, t int, shape string, seed uint64) {
 	if shape == "interleaved" {
 		// junk and a foreign round's opening on the board before and during the target round
 		_ = w.Board.Send(storage.Message{DkgRoundID: "junk", Event: "bogus", Data: []byte("junk"), SenderAddr: "nobody", Signature: []byte("x")})
+	}
+	if shape == "second-ceremony" {
+		// the ceremony that is reinitialised later is not the first one these machines ran
+		if _, err := w.StartDKG((int(seed)+1)%n, t, now().Add(-time.Minute)); err != nil {
+			c.Inconclusive("earlier ceremony: %v", err)
+			return
+		}
+		if _, q := w.Run(world.RandomPolicy, 8000); !q {
+			c.Inconclusive("earlier ceremony: no quiescence")
+			return
+		}
+		c.Add("originals_that_were_the_machines_second_ceremony", 1)
 	}
 	old.Round, err = w.StartDKG(int(seed)%n, t, now())
 	if err != nil {
